@@ -153,8 +153,12 @@ def api_main(g, job):
                 return []
             if st["cfg"]["version"] == "v3":
                 # the agent's clock moves: the next request must be stamped with these
-                st["boots"] += rng.choice([0, 0, 1])
-                st["time"] += rng.randint(1, 50)
+                if rng.random() < 0.3:
+                    # the agent restarts (boots + 1, its clock starts again) or its clock is set back
+                    st["boots"] += rng.choice([0, 1, 1])
+                    st["time"] = rng.randint(0, max(0, st["time"] - 1))
+                else:
+                    st["time"] += rng.randint(1, 50)
                 sp = dict(sp, boots=st["boots"], time=st["time"])
                 st["stamp_seq"].append((st["boots"], st["time"]))
             return [(0, scen.build_reply(sp, req, st["sc"], st["keys"], model, rng))]
